@@ -86,8 +86,15 @@ def r3_make_all(ctx):
                 lists.add(lst[1])
             else:
                 why = "pushed %s on %s but made %s" % (show(pushed), show(lst), show(mv))
+        if not ok and nb not in pushes and pushes:
+            # the move is recorded, but not in the statement right after make (a helper returned it, it travels
+            # through a Result): which push belongs to which make is not read here
+            ctx.lost(rid, "make_all_uci: the push that records the move made at line %d" % t["line"])
+            continue
         ctx.ob(rid, "make@%s|followed-by-push" % show(mv), ok, "" if ok else "make_all_uci: " + why, ctx.where(f, t["line"]),
                sample={"make": show(mv), "list": sorted(lists)})
+    if not lists and pushes:
+        return
     ok = len(lists) == 1
     ctx.ob(rid, "single-rollback-list", ok, "" if ok else "moves are pushed on %d different lists" % len(lists), ctx.where(f))
     if not lists:
